@@ -102,6 +102,7 @@ type monitor struct {
 	batches   map[string]*itemTrack // contract|nonce
 	valByAcc  map[string]string     // account bech32 -> valoper bech32
 	note      func(string, ...any)
+	traces    []string // a few non-trivial item histories for the evidence sample
 }
 
 func newMonitor(c *chain.Chain, rec *fw.Recorder, chains []string, note func(string, ...any)) *monitor {
@@ -347,6 +348,9 @@ func (m *monitor) boundary() {
 func (m *monitor) retire(it *itemTrack, prefix string) {
 	m.rec.Count(prefix+"/items_retired", 1)
 	if it.Accepted > 0 && it.Spice > 0 {
+		if len(m.traces) < 6 && len(it.Versions) > 1 {
+			m.traces = append(m.traces, prefix+":"+it.Kind+": "+strings.Join(it.Trace, " "))
+		}
 		m.rec.Distinct(prefix + ":" + it.Kind + ":" + strings.Join(it.Trace, ","))
 		m.rec.Count(prefix+"/nontrivial_item_histories", 1)
 	}
